@@ -119,10 +119,12 @@ def build_net(spec):
                 del nsm.default
             except AttributeError:
                 pass
-    decorate(nl, rng, spec.get("policy", "DEFAULT"), idents=True, brackets=bool(spec.get("brackets")))
+    decorate(nl, rng, spec.get("policy", "DEFAULT"), idents=True, brackets=bool(spec.get("brackets")),
+             punct=bool(spec.get("punct")))
     return nl
 
 
+EARLIER = {}  # id(netlist) -> {key: values present before an edit}
 GHOSTS = {}   # id(netlist) -> identifiers / names carried by elements whose attachment was refused
 
 
@@ -226,7 +228,8 @@ def add_twins(nl, rng):
                 nl.create_library(name=v)
 
 
-UK_POOL = ["k", "kk", "Kk", "ab", "aB", "b[0]", "b[1]", "x.y", "z"]
+UK_POOL = ["k", "kk", "Kk", "ab", "aB", "b[0]", "b[1]", "x.y", "z", "u-0", "a&b", "c d", "n#1", "t~q"]
+PUNCT = ["-", "&", "~", "#", " ", ".", "+", "$", "^", "(", "|"]
 
 
 def first_class(nl):
@@ -243,7 +246,7 @@ def first_class(nl):
     return out
 
 
-def decorate(nl, rng, policy, idents=True, brackets=False):
+def decorate(nl, rng, policy, idents=True, brackets=False, punct=False):
     """EDIF.identifier on about half of the named elements (spelling differs from the name; unique
     ignoring case among siblings because the names are), and a user key `uk` with a small value
     pool (deliberately not unique among siblings)."""
@@ -257,6 +260,26 @@ def decorate(nl, rng, policy, idents=True, brackets=False):
                 pass
         if rng.random() < 0.5:
             e["uk"] = rng.choice(UK_POOL)
+    if punct:
+        # names with punctuation that re.escape really escapes: exact = escaped regex must hold for them too
+        for lib in nl.libraries:
+            for d in lib.definitions:
+                for lst in (d.ports, d.cables, d.children):
+                    for e in list(lst):
+                        if e.name and rng.random() < 0.25:
+                            k = rng.randint(1, len(e.name))
+                            new = e.name[:k] + rng.choice(PUNCT) + e.name[k:]
+                            if new not in set(x.name for x in lst):
+                                try:
+                                    e.name = new
+                                except ValueError:
+                                    pass
+            for d in list(lib.definitions):
+                if d.name and rng.random() < 0.2:
+                    try:
+                        d.name = d.name + rng.choice(PUNCT) + "v"
+                    except ValueError:
+                        pass
     if brackets:
         # names that contain array-index text (legal under both policies; the EDIF reader produces such
         # cable and instance names): every pattern family is applied to them as to any other name
@@ -392,13 +415,17 @@ def make_filter(w, mode):
     return None
 
 
-def impl(w, x, pats=None, is_case=None, is_re=None, filt=None, trace=None):
-    """Run the real query. Returns ("ok", [ids]) or ("raise", family)."""
+def impl(w, x, pats=None, is_case=None, is_re=None, filt=None, trace=None, obj_override=None, stream=False):
+    """Run the real query. Returns ("ok", [ids]) or ("raise", family).  `obj_override`: the object passed
+    as first argument (a caller-owned list); `stream`: consume the generator element by element and
+    return ("ok", count)."""
     sdn = w.sdn
     fn = x["fn"]
     f = getattr(sdn, fn)
     roots = resolve_roots(w, x["roots"])
     obj = roots[0] if len(roots) == 1 and not x.get("as_list") else list(roots)
+    if obj_override is not None:
+        obj = obj_override
     kw = {}
     opts = x.get("opts", {})
     if "selection" in opts:
@@ -427,6 +454,8 @@ def impl(w, x, pats=None, is_case=None, is_re=None, filt=None, trace=None):
             return saved(parent, et, key, value)
         setattr(mod, lname, spy)
     try:
+        if stream:
+            return ("ok", sum(1 for _ in f(obj, **kw)))
         res = list(f(obj, **kw))
         return ("ok", [w.oid(e) for e in res])
     except Exception as e:  # candidate collection of some root kinds raises; class family only
@@ -1095,6 +1124,9 @@ def swap_one(s, rng):
 def gen_patterns(case, rng):
     """list of (pats, is_case, is_re, family)"""
     vals = case.values()
+    ea = EARLIER.get(id(case.w.nl), {}).get(case.x.get("key", ".NAME") if case.fn not in H_FNS else ".NAME", [])
+    if ea and case.variant in ("pipeline", "found"):
+        vals = vals + [rng.choice(ea)]
     gh = GHOSTS.get(id(case.w.nl), [])
     if gh and case.x.get("key") in (".NAME", "EDIF.identifier") and case.variant == "pipeline":
         vals = vals + [rng.choice(gh), rng.choice(gh)]
@@ -1242,6 +1274,35 @@ def metamorphic(runner, case, pats, is_case, is_re, fast, rng, res):
     return fails
 
 
+def api_relations(case, pats, is_case, is_re, fast):
+    """for every query function: (a) the roots passed as a caller-owned list are left unchanged and
+    the same list object gives the same answer when used again; (b) consuming the generator element by
+    element yields as many elements as list() does.  Returns [(relation, detail)]."""
+    w, x = case.w, case.x
+    fails = []
+    with FastLookup(fast):
+        st0, ref = impl(w, x, pats=pats, is_case=is_case, is_re=is_re, filt="none")
+        if st0 != "ok":
+            return fails
+        roots = resolve_roots(w, x["roots"])
+        mine = list(roots)
+        st1, r1 = impl(w, x, pats=pats, is_case=is_case, is_re=is_re, filt="none", obj_override=mine)
+        same = len(mine) == len(roots) and all(a is b for a, b in zip(mine, roots))
+        if not same:
+            fails.append(("roots_list_modified", {"before": len(roots), "after": len(mine)}))
+        st2, r2 = impl(w, x, pats=pats, is_case=is_case, is_re=is_re, filt="none", obj_override=mine)
+        if st1 == "ok" and st2 == "ok" and sorted(r1) != sorted(r2):
+            fails.append(("roots_list_reuse", {"first": sorted(r1), "second": sorted(r2)}))
+        if st1 == "ok" and len(roots) > 1 and sorted(r1) != sorted(ref):
+            fails.append(("roots_list_vs_fresh", {"list": sorted(r1), "fresh": sorted(ref)}))
+        st3, n = impl(w, x, pats=pats, is_case=is_case, is_re=is_re, filt="none", stream=True)
+        if st3 == "ok" and n != len(ref):
+            fails.append(("streaming_count", {"streamed": n, "listed": len(ref)}))
+        if st1 != "ok" or st2 != "ok" or st3 != "ok":
+            fails.append(("raises_on_repeat", {"list": st1, "again": st2, "stream": st3}))
+    return fails
+
+
 # --------------------------------------------------------------------------------------------
 # shard worker
 # --------------------------------------------------------------------------------------------
@@ -1285,6 +1346,7 @@ def shard_worker(seed, tier, si, nshards, budget_s, net_specs, per_net):
             hrefs = w.hrefs_instances()
             res.dist("net:%s:%s" % (ns["kind"], ns.get("policy", "EDIF")))
             history = []      # edits applied to this netlist so far (every reported input carries them)
+            earlier = EARLIER[id(nl)] = {}    # key -> values that elements of this netlist carried earlier
             n_edits = 0
             for qi in range(per_net):
                 if time.time() - t0 > budget_s:
@@ -1367,6 +1429,22 @@ def shard_worker(seed, tier, si, nshards, budget_s, net_specs, per_net):
                                                 reported.add(k2)
                                                 report(res, runner, w, r2[0], r2[1], x2, r2[2])
                         continue
+                    if pats is combos[0][0]:
+                        # calling conventions, every query function: caller-owned root list unchanged and
+                        # reusable, streaming consumption = list()
+                        try:
+                            af = api_relations(case, pats, is_case, is_re, fast)
+                        except Exception:
+                            res["obligations"].append(("harness api relations ran", False, traceback.format_exc()[-1500:]))
+                            af = []
+                        res.dist("api_relations")
+                        for rel, det in af:
+                            xa = input_of(case, pats, is_case, is_re, fast, "none")
+                            xa["net"] = ns
+                            sg = ["%s.metamorphic.%s" % (case.fn, rel)]
+                            if ("meta", tuple(sg)) not in reported:
+                                reported.add(("meta", tuple(sg)))
+                                report(res, runner, w, "meta", sg, xa, det)
                     if case.fn in NOPAT_FNS:
                         continue
                     try:
@@ -1423,10 +1501,16 @@ def shard_worker(seed, tier, si, nshards, budget_s, net_specs, per_net):
                 preq = input_of(case, pre_pats, pre_ic, pre_ir, True, "none")
                 preq.pop("pre", None)
                 steps = [["q", preq]]
+                old_now = []
                 for _ in range(rng.choice([1, 1, 2])):
                     n_edits += 1
                     ed = gen_edit(w, rng, case, n_edits)
+                    ov = edit_old_value(w, ed) if ed is not None else None
                     if ed is not None and apply_edit(w, ed):
+                        if ov is not None:
+                            earlier.setdefault(ov[0], []).append(ov[1])
+                            if ov[0] == x0.get("key", ".NAME") or (case.fn in H_FNS and ov[0] == ".NAME"):
+                                old_now.append(ov[1])
                         steps.append(["edit", ed])
                         history.append(["edit", ed])
                         res.dist("edit:" + ed["op"])
@@ -1443,6 +1527,10 @@ def shard_worker(seed, tier, si, nshards, budget_s, net_specs, per_net):
                     res.dist("after_edit:" + case2.why.split(":")[0])
                     continue
                 combos2 = [(pre_pats, pre_ic, pre_ir, "old")] + [c for c in combos[:2]] + gen_patterns(case2, rng)[:3]
+                for ov in old_now[:2]:
+                    # values that were present before the edit: exact, case-variant, escaped regex, prefix*
+                    combos2 += [([ov], True, False, "earlier_exact"), ([swap_one(ov, rng)], True, False, "earlier_swap"),
+                                ([_re.escape(ov)], True, True, "earlier_regex"), ([ov[:max(1, len(ov) - 1)] + "*"], True, False, "earlier_prefix")]
                 for pats, is_case, is_re, fam in combos2:
                     for fast in (True, False):
                         try:
@@ -1490,6 +1578,13 @@ def gen_edit(w, rng, case, n):
     o = w.objs[i]
     kind = w.kind[i]
     ops = ["rename", "rename", "rename", "set_ident", "set_uk"]
+    key = case.x.get("key") if case is not None else None
+    if key == "EDIF.identifier":
+        ops += ["set_ident"] * 6           # rename the identifier the query family is about
+    elif key == "uk":
+        ops += ["set_uk"] * 4
+    if kind in ("instance", "cable") and getattr(o, "parent" if kind == "instance" else "definition", None) is not None:
+        ops += ["readd"]
     if "EDIF.identifier" in o:
         ops.append("del_ident")
     if "uk" in o:
@@ -1503,7 +1598,7 @@ def gen_edit(w, rng, case, n):
         base = o.name if o.name else "un"
         val = rng.choice([base + "_r%d" % n, "r%d_" % n + base, base.swapcase() if base.swapcase() != base else base + "_R"])
     elif op == "set_ident":
-        val = "edit%d_Id" % n
+        val = rng.choice(["edit%d_Id", "Ed%d_X", "ED%dz"]) % n
     elif op == "set_uk":
         val = rng.choice(UK_POOL)
     elif op == "lower_index":
@@ -1513,6 +1608,20 @@ def gen_edit(w, rng, case, n):
     else:
         val = None
     return {"op": op, "obj": i, "value": val}
+
+
+def edit_old_value(w, e):
+    """(key, value) the edited element carried before the edit, if the edit changes a key value"""
+    o = w.objs[e["obj"]]
+    k = {"rename": ".NAME", "set_ident": "EDIF.identifier", "del_ident": "EDIF.identifier",
+         "set_uk": "uk", "del_uk": "uk"}.get(e["op"])
+    if k is None:
+        return None
+    try:
+        v = o[k] if k in o else None
+    except Exception:
+        v = None
+    return (k, v) if isinstance(v, str) and v else None
 
 
 def apply_edit(w, e):
@@ -1533,6 +1642,18 @@ def apply_edit(w, e):
             o.lower_index = e["value"]
         elif e["op"] == "is_scalar":
             o.is_scalar = e["value"]
+        elif e["op"] == "readd":
+            # take a child out of its definition and put it back (removal and re-attachment go through
+            # the name index); ids stay valid, only its position changes
+            from spydrnet.ir import Instance
+            if isinstance(o, Instance):
+                d = o.parent
+                d.remove_child(o)
+                d.add_child(o)
+            else:
+                d = o.definition
+                d.remove_cable(o)
+                d.add_cable(o)
         return True
     except (ValueError, RuntimeError, KeyError, AssertionError):
         return False
@@ -1649,7 +1770,7 @@ def run(ctx):
                               "unnamed": 0.15 if rng.random() < 0.25 else 0.0,
                               "size": "large" if rng.random() < 0.2 else "small",
                               "twins": rng.random() < 0.35, "refused": rng.random() < 0.3,
-                              "brackets": rng.random() < 0.35})
+                              "brackets": rng.random() < 0.35, "punct": rng.random() < 0.35})
         args.append((ctx.seed, ctx.tier, si, nshards, budget, specs, per_net))
     shard.run_shards(ctx, shard_worker, args)
     ht, hf = ctx.hist.get("hyp:True", 0), ctx.hist.get("hyp:False", 0)
